@@ -678,7 +678,7 @@ class FieldsJson(FieldValueBase):
     def _parse(cls, parsable):
         try:
             raw_values = json.loads(parsable.decode('ascii'), object_pairs_hook=collections.OrderedDict)
-        except ValueError as e:  # json.decoder.JSONDecodeError is derived from ValueError
+        except (ValueError, RuntimeError) as e:  # JSONDecodeError is a ValueError, RecursionError a RuntimeError
             six.raise_from(InvalidValue(bytes(parsable).decode('ascii', 'replace'), cls, 'value'), e)
 
         if not isinstance(raw_values, dict):
